@@ -520,32 +520,100 @@ theorem raise_fields_seen_by_handler (ty : String) (detail : List Nat) (data : V
 
 /-! ### range (the end test the evaluator runs on `Float`, here at `Int`) and map order -/
 
-/-- **loop_range_inclusive**, ascending: from `fr ≤ to` on, a value at or after the start is delivered
-    exactly when it is not beyond `to` — the end is inclusive -/
-theorem loop_range_inclusive_pos (fr to cur : Int) (h : fr ≤ to) (hc : fr ≤ cur) :
-    rangeDone intOps fr to cur = false ↔ cur ≤ to := by
+/-- **loop_range_inclusive**, positive step: a value at or after the start is delivered exactly when it
+    is not beyond `to` — the end is inclusive (no assumption on the order of the bounds) -/
+theorem loop_range_inclusive_pos (fr to step cur : Int) (hs : 0 < step) (hc : fr ≤ cur) :
+    rangeDone intOps fr to step cur = false ↔ cur ≤ to := by
   simp only [rangeDone, intOps, Bool.or_eq_false_iff, Bool.and_eq_false_iff, decide_eq_false_iff_not,
     Bool.not_eq_false', beq_iff_eq, beq_eq_false_iff_ne, ne_eq, Int.not_lt]
   omega
 
-/-- **loop_range_inclusive**, descending (negative step): from `to ≤ fr` on, a value at or before the
-    start is delivered exactly when it is not below `to` -/
-theorem loop_range_inclusive_neg (fr to cur : Int) (h : to ≤ fr) (hc : cur ≤ fr) :
-    rangeDone intOps fr to cur = false ↔ to ≤ cur := by
+/-- **loop_range_inclusive**, negative step: a value at or before the start is delivered exactly when it
+    is not below `to` -/
+theorem loop_range_inclusive_neg (fr to step cur : Int) (hs : step < 0) (hc : cur ≤ fr) :
+    rangeDone intOps fr to step cur = false ↔ to ≤ cur := by
   simp only [rangeDone, intOps, Bool.or_eq_false_iff, Bool.and_eq_false_iff, decide_eq_false_iff_not,
     Bool.not_eq_false', beq_iff_eq, beq_eq_false_iff_ne, ne_eq, Int.not_lt]
   omega
 
-/-- **loop_range_inclusive**, equal bounds: `range(a, a)` delivers `a` and nothing else -/
-theorem loop_range_equal_bounds (a c : Int) :
-    rangeDone intOps a a a = false ∧ (c ≠ a → rangeDone intOps a a c = true) := by
+/-- **loop_range_inclusive**, equal bounds: `range(a, a, step)` delivers `a` and nothing else, whatever the step -/
+theorem loop_range_equal_bounds (a step c : Int) :
+    rangeDone intOps a a step a = false ∧ (c ≠ a → rangeDone intOps a a step c = true) := by
   constructor
   · simp [rangeDone, intOps]
   · intro h; simp [rangeDone, intOps, h]
 
+/-- **loop_range_wrong_direction_empty**: a step that points away from the end — positive with
+    `to < from`, negative with `from < to` — gives a range without elements: zero iterations, for all
+    bounds and every number of allowed steps -/
+theorem loop_range_wrong_direction_empty (fr to step : Int) (n : Nat)
+    (h : (0 < step ∧ to < fr) ∨ (step < 0 ∧ fr < to)) :
+    rangeVals intOps fr to step n fr = [] := by
+  cases n with
+  | zero => rfl
+  | succ n =>
+    have hd : rangeDone intOps fr to step fr = true := by
+      simp only [rangeDone, intOps, Bool.or_eq_true, Bool.and_eq_true, decide_eq_true_eq, Bool.not_eq_true',
+        beq_iff_eq, beq_eq_false_iff_ne, ne_eq]
+      omega
+    simp [rangeVals, hd]
+
+/-- closed form, positive step: the delivered values are exactly `cur, cur+step, cur+2·step, …` as long
+    as they are within the inclusive end (from any position `cur` at or after the start) -/
+theorem loop_range_values_pos (fr to step : Int) (hs : 0 < step) (n : Nat) (cur : Int) (hc : fr ≤ cur) :
+    rangeVals intOps fr to step n cur =
+      ((List.range n).map fun (i : Nat) => cur + (i : Int) * step).takeWhile (fun x => decide (x ≤ to)) := by
+  induction n generalizing cur with
+  | zero => rfl
+  | succ n ih =>
+    rw [List.range_succ_eq_map, rangeVals]
+    simp only [List.map_cons, List.map_map, Int.natCast_zero, Int.zero_mul, Int.add_zero, List.takeWhile_cons]
+    by_cases hle : cur ≤ to
+    · have hd := (loop_range_inclusive_pos fr to step cur hs hc).2 hle
+      simp only [hd, Bool.false_eq_true, ↓reduceIte, hle, decide_true]
+      have hadd : intOps.add cur step = cur + step := rfl
+      rw [hadd, ih (cur + step) (by omega)]
+      congr 2
+      apply List.map_congr_left
+      intro i _
+      simp only [Function.comp, Int.natCast_succ, Int.add_mul, Int.one_mul]
+      omega
+    · have hd : rangeDone intOps fr to step cur = true := by
+        cases h : rangeDone intOps fr to step cur
+        · exact absurd ((loop_range_inclusive_pos fr to step cur hs hc).1 h) hle
+        · rfl
+      simp [hd, hle]
+
+/-- closed form, negative step: `cur, cur+step, …` as long as they are not below the inclusive end -/
+theorem loop_range_values_neg (fr to step : Int) (hs : step < 0) (n : Nat) (cur : Int) (hc : cur ≤ fr) :
+    rangeVals intOps fr to step n cur =
+      ((List.range n).map fun (i : Nat) => cur + (i : Int) * step).takeWhile (fun x => decide (to ≤ x)) := by
+  induction n generalizing cur with
+  | zero => rfl
+  | succ n ih =>
+    rw [List.range_succ_eq_map, rangeVals]
+    simp only [List.map_cons, List.map_map, Int.natCast_zero, Int.zero_mul, Int.add_zero, List.takeWhile_cons]
+    by_cases hle : to ≤ cur
+    · have hd := (loop_range_inclusive_neg fr to step cur hs hc).2 hle
+      simp only [hd, Bool.false_eq_true, ↓reduceIte, hle, decide_true]
+      have hadd : intOps.add cur step = cur + step := rfl
+      rw [hadd, ih (cur + step) (by omega)]
+      congr 2
+      apply List.map_congr_left
+      intro i _
+      simp only [Function.comp, Int.natCast_succ, Int.add_mul, Int.one_mul]
+      omega
+    · have hd : rangeDone intOps fr to step cur = true := by
+        cases h : rangeDone intOps fr to step cur
+        · exact absurd ((loop_range_inclusive_neg fr to step cur hs hc).1 h) hle
+        · rfl
+      simp [hd, hle]
+
 example : rangeVals intOps 1 3 1 10 1 = [1, 2, 3] := by decide
 example : rangeVals intOps 5 1 (-2) 10 5 = [5, 3, 1] := by decide
 example : rangeVals intOps 3 3 1 10 3 = [3] := by decide
+example : rangeVals intOps 1 0 1 10 1 = [] := loop_range_wrong_direction_empty 1 0 1 10 (.inl ⟨by decide, by decide⟩)
+example : rangeVals intOps 0 10 (-1) 10 0 = [] := by decide
 
 theorem insertBy_perm {α : Type} (lt : α → α → Bool) (x : α) (ys : List α) : (insertBy lt x ys).Perm (x :: ys) := by
   induction ys with
